@@ -68,6 +68,8 @@ block_decode(void *coder_ptr, const lzma_allocator *allocator,
 {
 	lzma_block_coder *coder = coder_ptr;
 
+	VERIF_VISIT(VERIF_D_BLOCK_SEQ, coder->sequence);
+
 	switch (coder->sequence) {
 	case SEQ_CODE: {
 		const size_t in_start = *in_pos;
